@@ -263,11 +263,11 @@ def gen_cases(tier, seed):
         flags = [] if r.random() < 0.5 else cli_model.flags_of(r.getrandbits(cli_model.NFLAGS))
         if cli_model.invalid(flags):
             flags.remove('--no-remove-annotations')
-        cases.append({'entries': entries, 'args': args, 'flags': flags, 'fault': None, 'want_sample': t % 25 == 0})
+        cases.append({'entries': entries, 'args': args, 'flags': flags, 'fault': None, 'want_sample': t % 25 == 0, 'timeout': 100})
         nf = 2 if tier == 'quick' else 4
         for j in range(nf):
             cases.append({'entries': entries, 'args': args, 'flags': flags, 'fault': {'kind': kinds[(t + j) % len(kinds)], 'index': r.randrange(1000)},
-                          'want_sample': (t + j) % 40 == 0})
+                          'want_sample': (t + j) % 40 == 0, 'timeout': 100})
     return cases
 
 
